@@ -305,8 +305,30 @@ def walk_order_and_entries(repo, rep, cont):
     if not stores:
         r4.ob(True, "no once-only flag in the walk")
     r5 = rep.rule("R16.5", "outside the _numpy methods, every use of `<x>._numpy` is dominated by a call of the cross-reference walk", floor=1)
+    # helpers of the _numpy methods (a private function all of whose call sites lie in _numpy methods or in other such helpers)
+    # are part of the vectorised implementation, not entry points
+    plain = repo.plain() if hasattr(repo, "plain") else repo         # call sites as written (helpers not inlined)
+    all_fns = [x for x in plain.all_functions() if x.module.name.startswith("histogrammar")]
+    callers = {}
+    for caller in all_fns:
+        for n in ast.walk(caller.node):
+            if isinstance(n, ast.Call):
+                nm = n.func.attr if isinstance(n.func, ast.Attribute) else (n.func.id if isinstance(n.func, ast.Name) else None)
+                if nm:
+                    callers.setdefault(nm, set()).add(caller.qualname)
+    internal = {x.qualname for x in all_fns if x.name == "_numpy"}
+    changed = True
+    while changed:
+        changed = False
+        for x in all_fns:
+            if x.qualname in internal or not x.name.startswith("_") or x.name.startswith("__"):
+                continue
+            cs = callers.get(x.name, set())
+            if cs and cs <= internal:
+                internal.add(x.qualname)
+                changed = True
     for fn in repo.all_functions():
-        if fn.name == "_numpy" or not fn.module.name.startswith("histogrammar") or ".dfinterface" in fn.module.name:
+        if fn.qualname in internal or not fn.module.name.startswith("histogrammar") or ".dfinterface" in fn.module.name:
             continue
         uses = [n for n in ast.walk(fn.node) if isinstance(n, ast.Attribute) and n.attr == "_numpy" and isinstance(n.ctx, ast.Load)]
         if not uses:
